@@ -11,7 +11,8 @@
    every related state pair and every single-I/O event: same client / upstream buffers and bytes on the wire,
    related mode and flags, same verdict (continue / torn down / exception escaped).
    It also proves that Intercept's private copy of TcpConnection.flush is Net/Conn.v's ([conn_flush_eq]).
-   Recorded disagreements (machine-checked, see the end of the file and notes/Links.md part 2). *)
+   The two disagreements once recorded here (response parser raising, protocol exception of the follow-up request
+   parser) were repaired in Tls/Intercept.v; they are now agreement lemmas at the end of the file. *)
 From PM Require Import Lib.Bytes Lib.BytesFacts Lib.PyStr.
 From PM Require Net.Conn Net.ConnFacts Net.Handler Tls.Intercept.
 From Coq Require Import ZArith Lia.
@@ -157,9 +158,12 @@ Proof.
   rewrite (hr_idle c e s3 Hc), Hp, (rfd_idle c e s3 Hu). reflexivity.
 Qed.
 
+Lemma not_os_not_wantread e : I.is_OSError e = false -> I.is_SSLWantReadError e = false.
+Proof. destruct e; simpl; congruence. Qed.
+
 Section Relay.
   Variable PS RS : Type.
-  Variable pipeline_step : PS -> bytes -> option (PS * list bytes).
+  Variable pipeline_step : PS -> bytes -> (PS * list bytes) + I.pipe_failure.
   Variable response_step : RS -> bytes -> option RS.
   Variable fl : I.flags.
   Variable hc : H.cfg.
@@ -215,8 +219,9 @@ Section Relay.
   Definition cdata_of (h : istate) (a : list bool) (raw : bytes) : H.cdata_outcome :=
     if I.tls_intercept_enabled_ fl a then
       match pipeline_step (I.pipe h) raw with
-      | Some (_, outs) => H.DForward outs false
-      | None => H.DRaise
+      | inl (_, outs) => H.DForward outs false
+      | inr (I.PipeProtocol _) => H.DProto []      (* HttpProtocolException, response() is None *)
+      | inr (I.PipeRaise _) => H.DRaise
       end
     else H.DNothing.
 
@@ -244,11 +249,20 @@ Section Relay.
     | I.FlushClient | I.FlushUpstream => idle_ev t     (* not single I/O calls: excluded by [wf_ev] *)
     end.
 
+  (* abstraction limits of Handler.v's oracle values (not disagreements): DProto has no "requests queued for the
+     origin before the parser raised", and there is no value for "a hook raised OSError" *)
+  Definition pipe_wf (r : (PS * list bytes) + I.pipe_failure) : Prop :=
+    match r with
+    | inl _ => True
+    | inr (I.PipeProtocol outs) => outs = []
+    | inr (I.PipeRaise e) => I.is_OSError e = false
+    end.
+
   Definition wf_ev (h : istate) (ev : I.event) : Prop :=
     match ev with
-    | I.ClientData a raw => raw <> []
-    | I.UpstreamData a raw =>
-        raw <> [] /\ (I.tls_intercept_enabled_ fl a = true -> response_step (I.resp h) raw <> None)
+    | I.ClientData a raw =>
+        raw <> [] /\ (I.tls_intercept_enabled_ fl a = true -> pipe_wf (pipeline_step (I.pipe h) raw))
+    | I.UpstreamData a raw => raw <> []
     | I.ClientWrite (I.SendRaise e) | I.UpstreamWrite (I.SendRaise e) => I.is_OSError e = true
     | I.ClientRecvRaise e | I.UpstreamRecvRaise e => I.is_OSError e = true
     | I.FlushClient | I.FlushUpstream => False
@@ -561,9 +575,10 @@ Section Relay.
 
   Lemma cd_sim t h s a raw :
     rel h s -> raw <> [] -> H.is_tunnel s = negb (I.tls_intercept_enabled_ fl a) ->
+    (I.tls_intercept_enabled_ fl a = true -> pipe_wf (pipeline_step (I.pipe h) raw)) ->
     out_rel s (istep h (I.ClientData a raw)) (H.step hc s (hev_of t h (I.ClientData a raw))).
   Proof.
-    intros Hr Hraw Htun. pose proof Hr as [[cl Hwk] Hu Hm Hp He Hc Hpl Hg].
+    intros Hr Hraw Htun Hpw. pose proof Hr as [[cl Hwk] Hu Hm Hp He Hc Hpl Hg].
     unfold H.step, H.select. rewrite (get_events_proxy s Hpl). ev_simpl.
     set (e := H.mkEvent _ _ _ _ _ _ _ _ _ _ _).
     rewrite handle_events_split, (hw_idle hc e s eq_refl). cbv beta iota.
@@ -613,13 +628,29 @@ Section Relay.
     - destruct Hu as [ucl Hu]. rewrite Hu, Htun.
       destruct (I.tls_intercept_enabled_ fl a) eqn:Een; cbn [negb].
       + rewrite Hg. change (H.cdata e) with (cdata_of h a (x :: r)). unfold cdata_of. rewrite Een.
-        destruct (pipeline_step (I.pipe h) (x :: r)) as [[p' outs]|].
+        specialize (Hpw eq_refl). destruct (pipeline_step (I.pipe h) (x :: r)) as [[p' outs]|[outs|e1]]; cbn [pipe_wf] in Hpw.
         * cbv beta iota. hsimpl. rewrite Hpl. cbv beta iota.
           rewrite (rfd_idle hc e _ eq_refl). cbv beta iota. unfold final. hsimpl. cbn [andb].
           unfold out_rel. cbn [fst snd].
           apply (Hrelq _ _ outs ucl); try reflexivity; try assumption; try discriminate.
           unfold hv. hsimpl. rewrite queue_all_mk, Hc, Hpl, M1. reflexivity.
-        * cbv beta iota. unfold out_rel. cbn [fst snd I.mode I.escaped]. split; [reflexivity|discriminate].
+        * subst outs. hsimpl. rewrite Hwk, has_buffer_mk, app_nil_r.
+          unfold I.after_handle_data_true, I.set_up_buf, I.with_mode, I.with_ps. cbn [fst I.cl_buf I.ps I.mode I.escaped I.pipe I.resp].
+          destruct (I.cl_buf (I.ps h)) as [|b0 bs0] eqn:Ecb; cbn [nonnil]; cbv beta iota.
+          -- unfold final. hsimpl. rewrite Hwk, has_buffer_mk. cbn [nonnil andb negb]. unfold out_rel. cbn [fst snd I.mode I.escaped I.ps].
+             hsimpl. split; [reflexivity|]. split; [exact He|]. exists cl. rewrite Hwk. reflexivity.
+          -- hsimpl. rewrite Hpl. cbv beta iota. rewrite (rfd_idle hc e _ eq_refl). cbv beta iota. unfold final. hsimpl. cbn [andb].
+             unfold out_rel. cbn [fst snd]. hsimpl. split; [|reflexivity].
+             split; cbn [I.ps I.mode I.escaped I.cl_buf I.cl_wire I.up I.up_buf I.up_wire]; hsimpl.
+             ++ exists cl. exact Hwk.
+             ++ unfold up_rel. cbn [I.up I.up_buf I.up_wire]. rewrite Eup. exists ucl. exact Hu.
+             ++ unfold mode_rel. hsimpl. auto.
+             ++ intros _. discriminate.
+             ++ exact He.
+             ++ exact Hc.
+             ++ exact Hpl.
+             ++ exact Hg.
+        * rewrite (not_os_not_wantread _ Hpw), Hpw. cbv beta iota. unfold out_rel, I.escape. cbn [fst snd I.mode I.escaped]. split; [reflexivity|discriminate].
       + cbv beta iota. hsimpl. rewrite Hpl. cbv beta iota.
         rewrite (rfd_idle hc e _ eq_refl). cbv beta iota. unfold final. hsimpl. cbn [andb].
         unfold out_rel. cbn [fst snd].
@@ -628,13 +659,29 @@ Section Relay.
     - destruct Hu as [ucl Hu]. rewrite Hu, Htun.
       destruct (I.tls_intercept_enabled_ fl a) eqn:Een; cbn [negb].
       + rewrite Hg. change (H.cdata e) with (cdata_of h a (x :: r)). unfold cdata_of. rewrite Een.
-        destruct (pipeline_step (I.pipe h) (x :: r)) as [[p' outs]|].
+        specialize (Hpw eq_refl). destruct (pipeline_step (I.pipe h) (x :: r)) as [[p' outs]|[outs|e1]]; cbn [pipe_wf] in Hpw.
         * cbv beta iota. hsimpl. rewrite Hpl. cbv beta iota.
           rewrite (rfd_idle hc e _ eq_refl). cbv beta iota. unfold final. hsimpl. cbn [andb].
           unfold out_rel. cbn [fst snd].
           apply (Hrelq _ _ outs ucl); try reflexivity; try assumption; try discriminate.
           unfold hv. hsimpl. rewrite queue_all_mk, Hc, Hpl, M1. reflexivity.
-        * cbv beta iota. unfold out_rel. cbn [fst snd I.mode I.escaped]. split; [reflexivity|discriminate].
+        * subst outs. hsimpl. rewrite Hwk, has_buffer_mk, app_nil_r.
+          unfold I.after_handle_data_true, I.set_up_buf, I.with_mode, I.with_ps. cbn [fst I.cl_buf I.ps I.mode I.escaped I.pipe I.resp].
+          destruct (I.cl_buf (I.ps h)) as [|b0 bs0] eqn:Ecb; cbn [nonnil]; cbv beta iota.
+          -- unfold final. hsimpl. rewrite Hwk, has_buffer_mk. cbn [nonnil andb negb]. unfold out_rel. cbn [fst snd I.mode I.escaped I.ps].
+             hsimpl. split; [reflexivity|]. split; [exact He|]. exists cl. rewrite Hwk. reflexivity.
+          -- hsimpl. rewrite Hpl. cbv beta iota. rewrite (rfd_idle hc e _ eq_refl). cbv beta iota. unfold final. hsimpl. cbn [andb].
+             unfold out_rel. cbn [fst snd]. hsimpl. split; [|reflexivity].
+             split; cbn [I.ps I.mode I.escaped I.cl_buf I.cl_wire I.up I.up_buf I.up_wire]; hsimpl.
+             ++ exists cl. exact Hwk.
+             ++ unfold up_rel. cbn [I.up I.up_buf I.up_wire]. rewrite Eup. exists ucl. exact Hu.
+             ++ unfold mode_rel. hsimpl. auto.
+             ++ intros _. discriminate.
+             ++ exact He.
+             ++ exact Hc.
+             ++ exact Hpl.
+             ++ exact Hg.
+        * rewrite (not_os_not_wantread _ Hpw), Hpw. cbv beta iota. unfold out_rel, I.escape. cbn [fst snd I.mode I.escaped]. split; [reflexivity|discriminate].
       + cbv beta iota. hsimpl. rewrite Hpl. cbv beta iota.
         rewrite (rfd_idle hc e _ eq_refl). cbv beta iota. unfold final. hsimpl. cbn [andb].
         unfold out_rel. cbn [fst snd].
@@ -643,13 +690,29 @@ Section Relay.
     - destruct Hu as [ucl Hu]. rewrite Hu, Htun.
       destruct (I.tls_intercept_enabled_ fl a) eqn:Een; cbn [negb].
       + rewrite Hg. change (H.cdata e) with (cdata_of h a (x :: r)). unfold cdata_of. rewrite Een.
-        destruct (pipeline_step (I.pipe h) (x :: r)) as [[p' outs]|].
+        specialize (Hpw eq_refl). destruct (pipeline_step (I.pipe h) (x :: r)) as [[p' outs]|[outs|e1]]; cbn [pipe_wf] in Hpw.
         * cbv beta iota. hsimpl. rewrite Hpl. cbv beta iota.
           rewrite (rfd_idle hc e _ eq_refl). cbv beta iota. unfold final. hsimpl. cbn [andb].
           unfold out_rel. cbn [fst snd].
           apply (Hrelq _ _ outs ucl); try reflexivity; try assumption; try discriminate.
           unfold hv. hsimpl. rewrite queue_all_mk, Hc, Hpl, M1. reflexivity.
-        * cbv beta iota. unfold out_rel. cbn [fst snd I.mode I.escaped]. split; [reflexivity|discriminate].
+        * subst outs. hsimpl. rewrite Hwk, has_buffer_mk, app_nil_r.
+          unfold I.after_handle_data_true, I.set_up_buf, I.with_mode, I.with_ps. cbn [fst I.cl_buf I.ps I.mode I.escaped I.pipe I.resp].
+          destruct (I.cl_buf (I.ps h)) as [|b0 bs0] eqn:Ecb; cbn [nonnil]; cbv beta iota.
+          -- unfold final. hsimpl. rewrite Hwk, has_buffer_mk. cbn [nonnil andb negb]. unfold out_rel. cbn [fst snd I.mode I.escaped I.ps].
+             hsimpl. split; [reflexivity|]. split; [exact He|]. exists cl. rewrite Hwk. reflexivity.
+          -- hsimpl. rewrite Hpl. cbv beta iota. rewrite (rfd_idle hc e _ eq_refl). cbv beta iota. unfold final. hsimpl. cbn [andb].
+             unfold out_rel. cbn [fst snd]. hsimpl. split; [|reflexivity].
+             split; cbn [I.ps I.mode I.escaped I.cl_buf I.cl_wire I.up I.up_buf I.up_wire]; hsimpl.
+             ++ exists cl. exact Hwk.
+             ++ unfold up_rel. cbn [I.up I.up_buf I.up_wire]. rewrite Eup. exists ucl. exact Hu.
+             ++ unfold mode_rel. hsimpl. auto.
+             ++ intros _. discriminate.
+             ++ exact He.
+             ++ exact Hc.
+             ++ exact Hpl.
+             ++ exact Hg.
+        * rewrite (not_os_not_wantread _ Hpw), Hpw. cbv beta iota. unfold out_rel, I.escape. cbn [fst snd I.mode I.escaped]. split; [reflexivity|discriminate].
       + cbv beta iota. hsimpl. rewrite Hpl. cbv beta iota.
         rewrite (rfd_idle hc e _ eq_refl). cbv beta iota. unfold final. hsimpl. cbn [andb].
         unfold out_rel. cbn [fst snd].
@@ -780,10 +843,9 @@ Section Relay.
 
   Lemma ud_sim t h s a raw :
     rel h s -> live h -> raw <> [] ->
-    (I.tls_intercept_enabled_ fl a = true -> response_step (I.resp h) raw <> None) ->
     out_rel s (istep h (I.UpstreamData a raw)) (H.step hc s (hev_of t h (I.UpstreamData a raw))).
   Proof.
-    intros Hr [_ Hup] Hraw Hresp. pose proof Hr as [[cl Hwk] Hu Hm Hp He Hc Hpl Hg].
+    intros Hr [_ Hup] Hraw. pose proof Hr as [[cl Hwk] Hu Hm Hp He Hc Hpl Hg].
     unfold H.step, H.select. rewrite (get_events_proxy s Hpl). ev_simpl.
     set (e := H.mkEvent _ _ _ _ _ _ _ _ _ _ _).
     rewrite handle_events_split, (hw_idle hc e s eq_refl). cbv beta iota.
@@ -823,7 +885,6 @@ Section Relay.
                       | intros _ X; apply app_eq_nil in X; destruct X as [_ X]; discriminate X ]).
       all: unfold I.read_from_descriptors.
       all: destruct (I.tls_intercept_enabled_ fl a) eqn:Een;
-        [ destruct (response_step (I.resp h) (x :: r)) as [r'|] eqn:Ers; [|exfalso; exact (Hresp eq_refl eq_refl)] |];
         apply Hrel'; try reflexivity; exact He. }
     unfold I.step.
     destruct (I.mode h) eqn:Em; unfold mode_rel in Hm; try contradiction.
@@ -840,8 +901,8 @@ Section Relay.
   Proof.
     intros Hr Hl Hwf Htun. pose proof Hr as [[cl Hwk] Hu Hm Hp He Hc Hpl Hg].
     destruct ev as [a raw|a raw| | |o|o|e0|e0|]; cbn [wf_ev] in Hwf; try contradiction.
-    - apply cd_sim; [exact Hr | exact Hwf | apply Htun; reflexivity].
-    - destruct Hwf as [W1 W2]. apply ud_sim; assumption.
+    - destruct Hwf as [W1 W2]. apply cd_sim; [exact Hr | exact W1 | apply Htun; reflexivity | exact W2].
+    - apply ud_sim; assumption.
     - apply cw_sim; try assumption. intros e0 ->. exact Hwf.
     - apply uw_sim; try assumption. intros e0 ->. exact Hwf.
     - apply crr_sim; assumption.
@@ -930,7 +991,7 @@ Section Relay.
   Qed.
 End Relay.
 
-(* ================================================================== non-vacuity and recorded disagreements *)
+(* ================================================================== non-vacuity and the former disagreements (now agreements) *)
 Definition ex_fl : I.flags :=
   I.mkFlags (Some (bs "k")) (Some (bs "d")) (Some (bs "s")) (Some (bs "c")) None false (bs "502") 65536.
 Definition ex_hc : H.cfg := H.mkCfg 65536 (bs "200") 10%Z true.
@@ -938,7 +999,7 @@ Definition ex_pst (clb : list bytes) : I.pst := I.mkPst [] [] I.ClTls clb [] I.U
 Definition ex_h (clb : list bytes) : I.hstate unit unit := I.mkH (ex_pst clb) I.Running None tt tt.
 Definition ex_s (clb : list bytes) (tunnel : bool) : H.hstate :=
   H.mkH (Cn.mkConn clb false []) false false false 0%Z true H.PProxy (Some Cn.new_conn) tunnel false [] [] [] 0%Z.
-Definition echo_pipeline (_ : unit) (raw : bytes) : option (unit * list bytes) := Some (tt, [raw]).
+Definition echo_pipeline (_ : unit) (raw : bytes) : (unit * list bytes) + I.pipe_failure := inl (tt, [raw]).
 Definition ok_response (_ : unit) (_ : bytes) : option unit := Some tt.
 
 Lemma ex_rel clb tunnel : rel unit unit (ex_h clb) (ex_s clb tunnel).
@@ -961,32 +1022,35 @@ Example intercept_relay_example :
   I.wire_bytes (I.cl_wire (I.ps h')) = bs "resp" /\ H.delivered_client s' = bs "resp".
 Proof. vm_compute. repeat split; reflexivity. Qed.
 
-(* DISAGREEMENT 1 (Handler.v and the Python are right, Intercept.v is stale w.r.t. fix ba95ac6): under interception
-   the bookkeeping response parser raises on a chunk from the origin ([response_step] = None).
-   Intercept.v: the work is closed with an escaped exception, the chunk is lost.
-   Handler.v (repaired read_from_descriptors) and /repo: the chunk is queued for the client, the relay continues. *)
-Lemma intercept_response_parse_differ :
+(* FORMER DISAGREEMENT 1 (was [intercept_response_parse_differ]; Intercept.v repaired to follow fix ba95ac6): under
+   interception the bookkeeping response parser raises on a chunk from the origin ([response_step] = None).
+   Both models, like /repo: the chunk is queued for the client, the relay continues.  The general statement is
+   [ud_sim]/[step_sim], which no longer carry a premise about [response_step]. *)
+Lemma intercept_response_parse_agree :
   let bad_response := fun (_ : unit) (_ : bytes) => @None unit in
   let ev := I.UpstreamData [] (bs "x") in
   let h' := I.step unit unit echo_pipeline bad_response ex_fl (ex_h []) ev in
   let '(s', v) := H.step ex_hc (ex_s [] false) (hev_of unit unit echo_pipeline ex_fl 1%Z (ex_h []) ev) in
-  I.mode h' = I.Closed /\ I.escaped h' = Some I.HttpProtocolException_ /\ I.cl_buf (I.ps h') = [] /\
+  I.mode h' = I.Running /\ I.escaped h' = None /\ I.cl_buf (I.ps h') = [bs "x"] /\
   v = H.Continue /\ H.pending_client s' = bs "x".
 Proof. vm_compute. repeat split; reflexivity. Qed.
 
-(* DISAGREEMENT 2 (Handler.v and the Python are right): the parser of decrypted follow-up requests raises an
-   HttpProtocolException ([pipeline_step] = None) while output is still pending for the client.
-   Intercept.v: Closed at once, with the exception recorded as having ESCAPED handle_events.
-   /repo: handle_data catches HttpProtocolException and returns True; with output pending
-   BaseTcpServerHandler sets must_flush_before_shutdown and the pending bytes are still delivered —
-   which is what Handler.v does for the oracle value DProto (the map [hev_of] sends None to DRaise, the
-   non-protocol exception, for which the two models agree). *)
-Lemma intercept_pipeline_protocol_exception_differ :
-  let bad_pipeline := fun (_ : unit) (_ : bytes) => @None (unit * list bytes) in
+(* FORMER DISAGREEMENT 2 (was [intercept_pipeline_protocol_exception_differ]; Intercept.v repaired): the parser of
+   decrypted follow-up requests raises an HttpProtocolException ([pipeline_step] = inr (PipeProtocol [])) while
+   output is still pending for the client.  Both models, like /repo: handle_data catches it and returns True;
+   with output pending must_flush_before_shutdown is armed, the pending bytes are delivered by the next
+   client write, and only then the work is torn down - nothing escapes.  [hev_of] now maps this oracle value to
+   Handler's DProto; the general statement is [cd_sim]/[step_sim]. *)
+Lemma intercept_pipeline_protocol_exception_agree :
+  let bad_pipeline := fun (_ : unit) (_ : bytes) => @inr (unit * list bytes) _ (I.PipeProtocol []) in
   let ev := I.ClientData [] (bs "G") in
-  let h' := I.step unit unit bad_pipeline ok_response ex_fl (ex_h [bs "r"]) ev in
-  let e := H.mkEvent 1%Z true false false false Cn.WouldBlock Cn.WouldBlock (H.RData (bs "G")) H.ROsErr H.RIncomplete (H.DProto []) in
-  let '(s', v) := H.step ex_hc (ex_s [bs "r"] false) e in
-  I.mode h' = I.Closed /\ I.escaped h' = Some I.HttpProtocolException_ /\
-  v = H.Continue /\ H.must_flush s' = true /\ H.pending_client s' = bs "r".
+  let h1 := I.step unit unit bad_pipeline ok_response ex_fl (ex_h [bs "r"]) ev in
+  let '(s1, v1) := H.step ex_hc (ex_s [bs "r"] false) (hev_of unit unit bad_pipeline ex_fl 1%Z (ex_h [bs "r"]) ev) in
+  let ev2 := I.ClientWrite (I.SendOk 100) in
+  let h2 := I.step unit unit bad_pipeline ok_response ex_fl h1 ev2 in
+  let '(s2, v2) := H.step ex_hc s1 (hev_of unit unit bad_pipeline ex_fl 2%Z h1 ev2) in
+  I.mode h1 = I.MustFlush /\ I.escaped h1 = None /\ I.cl_buf (I.ps h1) = [bs "r"] /\
+  v1 = H.Continue /\ H.must_flush s1 = true /\ H.pending_client s1 = bs "r" /\
+  I.mode h2 = I.Closed /\ I.escaped h2 = None /\ I.wire_bytes (I.cl_wire (I.ps h2)) = bs "r" /\
+  v2 = H.Teardown /\ H.delivered_client s2 = bs "r".
 Proof. vm_compute. repeat split; reflexivity. Qed.
